@@ -19,7 +19,7 @@ from .. import c15_hist as H
 from .. import c15_new as N
 from .. import core
 
-QUICK_SWITCH_KINDS = ("float", "choice", "data", "datavalue")
+QUICK_SWITCH_KINDS = ("float", "data")
 ENTRIES = ("validate", "validate_data", "ctor_data", "data_setter", "set_data_value", "form_value")
 
 
@@ -70,6 +70,10 @@ def run_entry(fix, kind, cfg, entry, vspec):
             return None, is_none  # reading the data edited the switches: judged in part B
         return outcome(lambda: made[0].set_data_value("target", value)), is_none
     if entry == "form_value":
+        if cfg["dep"] != "none" and not cfg["copt"] and cfg["cen"] is False:
+            # the controller itself is a disabled non-optional parameter: its own stored value is
+            # read as None and refused, whatever the target holds
+            return None, is_none
         if F.KINDS[kind].get("typed_by_value") and vspec[0] == "lit" and not isinstance(value, type(F.KINDS[kind]["form"]["value"])):
             return None, is_none  # the form declares its type through this very value
         uj2, _ = F.build_ui_json(fix, kind, cfg, target_value=value)
@@ -225,7 +229,8 @@ def items_a(ctx):
         # every switch combination on None + one valid + one invalid value for four kinds (the None
         # rule does not look at the kind); the whole value lattice of every kind on 18 corner forms.
         corners = [c for c in cfgs if c["grp"] in ("none", "on")
-                   and (c["dep"], c["dstate"], c["dtype"]) in (("none", None, None), ("bool", True, None), ("opt", False, "enabled"))
+                   and (c["dep"], c["copt"], c["cen"], c["cval"], c["dtype"]) in (
+                       ("none", False, None, None, None), ("ctl", False, None, True, None), ("ctl", True, False, True, "enabled"))
                    and (c["opt"], c["en"]) in ((False, None), (True, True), (True, False))]
         for kind, spec in F.KINDS.items():
             vals = spec["values"]
@@ -244,7 +249,7 @@ def items_a(ctx):
                 items.append((kind, cfg, None, False))
         for kind in F.ASSOCIATED:
             for cfg in cfgs:
-                if cfg["grp"] in ("none", "off") and cfg["dep"] in ("none", "bool"):
+                if cfg["grp"] in ("none", "off") and (cfg["dep"] == "none" or (not cfg["copt"] and cfg["cen"] is None)):
                     items.append((kind, cfg, None, True))
     return items
 
